@@ -35,7 +35,7 @@ T = {
          "compile.go's construction of the predicate dependency is checked by G19 on the source and, behaviourally, only on the regenerated corpora (a generated family of shapes: fan-in from one provider, repeated parameter types, predicates with own/shared inputs, reversed listing)."),
  "C12": ("Ownership: loop-owned fields touched only by the loop goroutine, Scheduler.err read only after the finish receive, Enqueue touches only the new object and the channel, ScheduledJob sealed; generated shared variables single-writer with every reader ordered after the writer by Dependencies or Wait; ran is atomic.",
          "Races inside user functions are out of scope; the Go memory model's channel edges are the trusted base."),
- "C13": ("Every template variant parses and type-checks under adversarial import aliases; every template field path exists; no output write before re-parse and format succeeded; compile errors abort generation; constant accessors with panicking preconditions are guarded; errors reach the exit status; no directive call is skipped by the file walker (nested directives are diagnosed: finding F10, repaired); package names handed to the templates are looked up in the directive's scope (finding F11, repaired); every regenerated corpus package type-checks and holds no directive call.",
+ "C13": ("Every type handed to a type printer is first checked for nameability where the generated code is placed and what the check finds is returned before the output is written (G33); every template variant parses and type-checks under adversarial import aliases; every template field path exists; no output write before re-parse and format succeeded; compile errors abort generation; constant accessors with panicking preconditions are guarded; errors reach the exit status; no directive call is skipped by the file walker (nested directives are diagnosed: finding F10, repaired); package names handed to the templates are looked up in the directive's scope (finding F11, repaired); every regenerated corpus package type-checks and holds no directive call.",
          "Printing of arbitrary user types is covered on the corpus programs only (DESIGN §5 C13)."),
  "C14": ("All validators run on every path before scheduling/generation and any diagnostic aborts; duplicate-provider results are tested; diagnostics are positioned; Slice/Map assignability is tested in the direction of the generated call; the cycle search keeps the memo discipline of a sound memoised DFS (post-order memo, or path test first under the memo's key); the generator's synthetic sentinel types (Invoke / Predicate families) are structurally disjoint and numbered apart; the validators' memo keys are total over the nodes searched; user types are classified by their underlying type (named map/function/pointer types were refused on the pinned tree: finding F9, repaired); every flow of the regenerated corpora (well-formed by construction) is accepted.",
          "Completeness of the BFS (every missing provider / unused input reported) and acceptance of every well-formed flow beyond these premises is NOT decided: a property of graph algorithms over all graphs."),
@@ -47,9 +47,9 @@ T = {
          "Nondeterminism inside go/packages is outside the analysed code."),
  "C18": ("Path-sensitive event typestate on every instrumented variant: Done deferred first; exactly one of Success/Error(err) before each return with err the returned one; per task exactly one outcome event and one TaskDone per invocation; skipped sweep covers every task; emitter stacks forward each method once per element with all arguments.",
          "-auto-instrument name synthesis and emitters that themselves panic are not covered."),
- "C19": ("Conservation law pending = |ready| + waiting + ongoing by effect summary of every path through every select arm; State literal fed by the right counters; Emit only inside the loop body; executing <= Concurrency through the dispatch gate; parameter plumbing.",
+ "C19": ("The state ticker exists only with an emitter and its interval is the configured frequency or a positive default (S31); conservation law pending = |ready| + waiting + ongoing by effect summary of every path through every select arm (helpers of the loop summarised as a whole); State literal fed by the right counters; Emit only inside the loop body; executing <= Concurrency through the dispatch gate; parameter plumbing.",
          "'Pending <= submitted' and 'Waiting <= submitted-with-deps' follow from conservation and non-negativity but are not separately discharged."),
- "C20": ("The source-map flag guards only statements that emit comment tokens and both modes share one template set; modifier templates satisfy the same structural obligations as their base siblings and type-check; on a regenerated modifier-mode corpus inside the supported subset every generated flow function meets the base-mode obligations (dependencies, wiring, panic guard, error pass-through, ctx, Wait discipline), every directive argument reaches its hoisted name unchanged through call site, helper and prologue, the output type-checks and adds nothing but the generated functions; generated package-level names are injective in (file, line, column).",
+ "C20": ("Modifier-mode functions are generated at package level: every type they name is checked to be nameable there (G33); the source-map flag guards only statements that emit comment tokens and both modes share one template set; modifier templates satisfy the same structural obligations as their base siblings and type-check; on a regenerated modifier-mode corpus inside the supported subset every generated flow function meets the base-mode obligations (dependencies, wiring, panic guard, error pass-through, ctx, Wait discipline), every directive argument reaches its hoisted name unchanged through call site, helper and prologue, the output type-checks and adds nothing but the generated functions; generated package-level names are injective in (file, line, column).",
          "Behavioural equality of modifier and base output is NOT decided."),
 }
 PENDING = "no rule of the static rule set for this property is implemented yet in this revision of /verif (see DESIGN.md §0); it is not claimed until its check exists"
@@ -69,8 +69,8 @@ for pid in sorted(T):
         "replay_cmd_template": "cat {path}",
         "engine": "cffverif",
         "level_claimed": {"category": "other", "text": text + " Rules in this revision: " + ", ".join(rs) + ".", "design_ref": f"DESIGN.md §5 {pid}, §4"},
-        "level_note": "Static analysis only. Scheduler and emitter-stack rules are evaluated on go/ssa (value identity by def-use, conditions as dominating conditional edges, natural loops; helpers with one call site are analysed in the context of that call); generator rules on the type-checked AST; templates are expanded over an abstract domain and type-checked; generated code of the corpus is analysed, never run. Decides structural necessary conditions, not the runtime behaviour itself. NOT covered: " + notcov + " A rule whose code shape is not recognised reports 'undecided' (counts as failure) rather than passing.",
-        "technique": "static analysis: repository-specific structural rules (ownership, dominance of conditional edges, pairing, path-effect summaries, who-may-call) over go/ssa and the type-checked AST of /repo; exhaustive template-variant expansion + go/types; static translation validation of regenerated corpus code against an independent reading of the source directive",
+        "level_note": "Static analysis only. Scheduler and emitter-stack rules are evaluated on go/ssa (value identity by def-use, conditions as dominating conditional edges, natural loops; helpers with one call site are analysed in the context of that call); generator rules on the type-checked AST; templates are expanded over an abstract domain (the generator's own template-driving code and template functions are read by an abstract interpreter over their syntax trees, user expressions and types being opaque tokens; nothing of /repo is compiled or run for this) and type-checked; generated code of the corpus is analysed, never run. Decides structural necessary conditions, not the runtime behaviour itself. NOT covered: " + notcov + " A rule whose code shape is not recognised reports 'undecided' (counts as failure) rather than passing.",
+        "technique": "static analysis: repository-specific structural rules (ownership, dominance of conditional edges, pairing, path-effect summaries, who-may-call) over go/ssa and the type-checked AST of /repo; exhaustive template-variant expansion (abstract interpretation of the generator's source over opaque expression/type tokens) + go/types; static translation validation of regenerated corpus code against an independent reading of the source directive",
     })
 m = {
  "version": 1,
